@@ -4,6 +4,7 @@ package main
 
 import (
 	"fmt"
+	"go/constant"
 	"go/token"
 	"go/types"
 	"sort"
@@ -83,6 +84,7 @@ func checkC01(c *Ctx) {
 
 	// ---- C01-CYCLE: printing and Show terminate on cyclic scope graphs because the Seen set is threaded
 	c.checkSeenThreaded()
+	c.checkDataRecursion(br)
 
 	// ---- C01-TA
 	for _, f := range c.zygoFuncs() {
@@ -224,7 +226,63 @@ func panicArg(v ssa.Value) string {
 		}
 		return s
 	}
-	return v.Name()
+	return valueOrigin(v, 0)
+}
+
+// valueOrigin names a value by where it comes from, never by its SSA register.
+func valueOrigin(v ssa.Value, depth int) string {
+	if depth > 3 {
+		return typeShort(v.Type())
+	}
+	switch x := v.(type) {
+	case *ssa.Parameter:
+		return x.Name()
+	case *ssa.FreeVar:
+		return x.Name()
+	case *ssa.Extract:
+		if call, ok := x.Tuple.(*ssa.Call); ok {
+			return "result of " + calleeName(&call.Call)
+		}
+		if ta, ok := x.Tuple.(*ssa.TypeAssert); ok {
+			return valueOrigin(ta.X, depth+1)
+		}
+	case *ssa.MakeInterface:
+		return valueOrigin(x.X, depth+1)
+	case *ssa.ChangeInterface:
+		return valueOrigin(x.X, depth+1)
+	case *ssa.TypeAssert:
+		return valueOrigin(x.X, depth+1)
+	case *ssa.Phi:
+		var parts []string
+		for _, e := range x.Edges {
+			if k, ok := e.(*ssa.Const); ok && k.Value == nil {
+				continue
+			}
+			if e == v {
+				continue
+			}
+			parts = append(parts, valueOrigin(e, depth+1))
+		}
+		return strings.Join(uniqSorted(parts), "|")
+	case *ssa.Call:
+		nm := "result of " + calleeName(&x.Call)
+		for _, a := range x.Call.Args {
+			if k, ok := a.(*ssa.Const); ok && k.Value != nil && k.Value.Kind() == constant.String {
+				return nm + " " + shortStr(k.Value.ExactString(), 40)
+			}
+		}
+		return nm
+	case *ssa.UnOp:
+		if al, ok := x.X.(*ssa.Alloc); ok && al.Comment != "" {
+			return al.Comment
+		}
+		if fa, ok := x.X.(*ssa.FieldAddr); ok {
+			if f := faField(fa); f != nil {
+				return "." + f.Name()
+			}
+		}
+	}
+	return typeShort(v.Type())
 }
 
 func calleeOfErr(v ssa.Value) string {
